@@ -102,6 +102,13 @@ type planInfo struct {
 	Snap    map[string]sbx.StoreEntry
 	Expects map[string]*expectation
 
+	// lfs.fetchinclude coordinate (fetchinclude.go); the reference verdict never depends on it
+	Fi        []string                   // patterns ("" = unset)
+	FiKind    string                     // "unset" | "some" | "none" | "all" relative to the paths of the damaged objects of the plan
+	FiVia     string                     // "local-config" | "global-config" | "dash-c" | "lfsconfig"
+	GlobalCfg string                     // file passed as GIT_CONFIG_GLOBAL (FiVia == "global-config")
+	FiOutside map[string]map[string]int  // form -> damaged oid of the checked set -> 2: no referencing path matches the include patterns, 1: some do not
+
 	// later rounds of a multi-round case (rounds.go); zero values in round 1
 	Round    int             // 0/1 = first fsck on this repository state, n = n-th {restore, damage, fsck} round on the same copy
 	Repaired map[string]bool // oids that an earlier `git lfs fsck` of this case moved to lfs/bad/<oid>
@@ -272,7 +279,8 @@ func (rc *repoCase) runOne(pl *planInfo, form string, mi int, dry bool, runDir s
 		args = append(args, "--dry-run")
 	}
 	args = append(args, as.Args...)
-	res := rc.env.Run(sbx.RunOpt{Dir: runDir}, "git-lfs", args...)
+	prog, argv, envv := rc.fiCommand(pl, args)
+	res := rc.env.Run(sbx.RunOpt{Dir: runDir, Env: envv}, prog, argv...)
 	after = sbx.SnapshotLFS(gitDir)
 	rp := parseReport(res)
 
@@ -284,6 +292,11 @@ func (rc *repoCase) runOne(pl *planInfo, form string, mi int, dry bool, runDir s
 	if len(pl.Fx) > 0 {
 		fxS = "fetchexclude"
 	}
+	fiSet := len(pl.Fi) > 0
+	if fiSet {
+		fxS += "+fetchinclude-" + pl.FiKind
+	}
+	fiOut := pl.FiOutside[form] // nil when lfs.fetchinclude is unset
 	// outcome category of the reference verdict (restricted to the selected mode)
 	reqObj, reqPtr := 0, 0
 	if mode.Obj {
@@ -329,8 +342,8 @@ func (rc *repoCase) runOne(pl *planInfo, form string, mi int, dry bool, runDir s
 			class += "/later-round"
 		}
 	}
-	base := map[string]any{"repo_case": rc.idx, "plan": pl.Idx, "class": class, "argv": append([]string{"git-lfs"}, args...), "arg_spelling": as.Spelled,
-		"fetchexclude": strings.Join(pl.Fx, ","), "exit": res.Code, "expected": ex.String(), "damage": pl.Damage}
+	base := map[string]any{"repo_case": rc.idx, "plan": pl.Idx, "class": class, "argv": append([]string{prog}, argv...), "arg_spelling": as.Spelled,
+		"fetchexclude": strings.Join(pl.Fx, ","), "fetchinclude": strings.Join(pl.Fi, ","), "fetchinclude_via": pl.FiVia, "exit": res.Code, "expected": ex.String(), "damage": pl.Damage}
 	if pl.Round >= 2 {
 		base["round"] = pl.Round
 		base["earlier_rounds"] = pl.RoundLog
@@ -350,7 +363,40 @@ func (rc *repoCase) runOne(pl *planInfo, form string, mi int, dry bool, runDir s
 	if len(pl.Fx) > 0 {
 		run.Count("fsck_runs_with_fetchexclude", 1)
 	}
+	if fiSet {
+		run.Count("fsck_runs_with_fetchinclude", 1)
+		run.Count("fsck_runs_with_fetchinclude_"+pl.FiKind, 1)
+		run.Count("fsck_runs_with_fetchinclude_via_"+pl.FiVia, 1)
+		if len(pl.Fx) > 0 {
+			run.Count("fsck_runs_with_fetchinclude_and_fetchexclude", 1)
+		}
+		if mode.Obj {
+			for oid := range ex.ObjRequired {
+				switch fiOut[oid] {
+				case 2:
+					run.Count("damaged_objects_outside_fetchinclude", 1)
+				case 1:
+					run.Count("damaged_objects_partly_outside_fetchinclude", 1)
+				default:
+					run.Count("damaged_objects_inside_fetchinclude", 1)
+				}
+			}
+		}
+	}
 	run.Count(fmt.Sprintf("fsck_exit_%d", res.Code), 1)
+	// A no-argument fsck runs `git diff-index HEAD`; for a racily clean index entry Git compares the
+	// content through the clean filter, which stores the object again. The copies made with cp -a
+	// never have such entries (ctime and inode differ, Git reports them changed without reading
+	// them); if a damaged object is intact again after the run nevertheless, it is counted here
+	// (and the clauses below see the change of the store as what it is).
+	for rel, a := range after {
+		oid := filepath.Base(rel)
+		if strings.HasPrefix(rel, "objects/") && oidNameRE.MatchString(oid) && a.Sha == oid {
+			if b, ok := before[rel]; !ok || b.Sha != oid {
+				run.Count("damaged_objects_recreated_during_fsck", 1)
+			}
+		}
+	}
 
 	sigSeen := map[string]bool{}
 	viol := func(sym, trig, what string) {
@@ -426,6 +472,18 @@ func (rc *repoCase) runOne(pl *planInfo, form string, mi int, dry bool, runDir s
 			if all {
 				trig = "nested-gitattributes-subdir"
 			}
+		} else if fiSet {
+			// every damaged object of this run has a path outside lfs.fetchinclude: the coordinate is the setting
+			all := true
+			for oid := range objReq {
+				if fiOut[oid] == 0 {
+					all = false
+					break
+				}
+			}
+			if all {
+				trig = "fetchinclude-set"
+			}
 		}
 		viol("exit-0-despite-problems", trig, fmt.Sprintf("exit status 0 although the reference model finds problems: %s", ex))
 	}
@@ -460,7 +518,11 @@ func (rc *repoCase) runOne(pl *planInfo, form string, mi int, dry bool, runDir s
 		for _, oid := range histgen.SortedKeys(objReq) {
 			run.Count("object_items_compared", 1)
 			if _, ok := rp.Objects[oid]; !ok {
-				viol("object-not-named", form+"-arg/"+rc.kindOfOid(pl, oid)+fxT, fmt.Sprintf("object %s (referenced by %q, damage: %s) is missing or corrupt but not named", oid, ex.ObjPaths[oid], rc.kindOfOid(pl, oid)))
+				trig := form + "-arg/" + rc.kindOfOid(pl, oid) + fxT
+				if fiOut[oid] > 0 {
+					trig = "fetchinclude-set"
+				}
+				viol("object-not-named", trig, fmt.Sprintf("object %s (referenced by %q, damage: %s) is missing or corrupt but not named", oid, ex.ObjPaths[oid], rc.kindOfOid(pl, oid)))
 			}
 		}
 		for _, oid := range histgen.SortedKeys(rp.Objects) {
@@ -539,13 +601,18 @@ func (rc *repoCase) runOne(pl *planInfo, form string, mi int, dry bool, runDir s
 			bad, inBad := after["bad/"+oid]
 			_, still := after[rel]
 			trig := form + "-arg/" + rc.kindOfOid(pl, oid) + fxT
+			if fiOut[oid] > 0 {
+				trig = "fetchinclude-set"
+			}
 			if _, pre := before["bad/"+oid]; pre {
 				// Later rounds only (round 1 starts without lfs/bad): a file lfs/bad/<oid> existed before
 				// the run, left by an earlier repair of the same object or put there by the generator.
 				// The statement says "moved aside rather than deleted": demanded is that the corrupt file
 				// leaves lfs/objects and that its bytes exist under lfs/bad afterwards (under whatever
 				// name; nothing is demanded about the older file).
-				trig = rc.preBadTrigger(pl, oid, trig)
+				if fiOut[oid] == 0 { // one trigger per case: an object outside lfs.fetchinclude keeps "fetchinclude-set"
+					trig = rc.preBadTrigger(pl, oid, trig)
+				}
 				run.Count("bad_files_compared_with_preexisting_bad_file", 1)
 				switch {
 				case still:
@@ -780,6 +847,7 @@ func (rc *repoCase) makePlan(k int) *planInfo {
 	for form, as := range pl.Args {
 		pl.Expects[form] = rc.ri.expect(as, pl.Fx, pl.Snap)
 	}
+	rc.setFetchInclude(pl, k) // after the expectations: they do not depend on it
 	return pl
 }
 
@@ -799,6 +867,7 @@ func main() {
 	nPlans := run.N(3, 4)
 	run.SetMinEvaluations(nRepos * nPlans * 9)
 
+	run.Count("damaged_objects_recreated_during_fsck", 0) // the key shows up even when it never happens
 	sem := make(chan struct{}, runtime.NumCPU())
 	var wg sync.WaitGroup
 	guard := func(what string, f func()) {
